@@ -26,7 +26,7 @@ def run(run):
     run.assume("S-REAL", "S-PY", "S-NUMPY", "A-TRIG")
     run.level_override = "other"
     run.assume("A-NUMPY-MA")
-    run.fork_map(_section, [("sph",), ("lambert",)] + [("poles", ra) for ra in ("xy", "xz", "yx", "yz", "zx", "zy", "XZ")])
+    run.fork_map(_section, [("sph",), ("lambert",), ("density",), ("kernels",)] + [("poles", ra) for ra in ("xy", "xz", "yx", "yz", "zx", "zy", "XZ")])
     bounded(run)
 
 
@@ -36,6 +36,10 @@ def _section(run, item):
             spherical_facets(run)
         elif item[0] == "lambert":
             lambert_facets(run)
+        elif item[0] == "density":
+            density_glue(run)
+        elif item[0] == "kernels":
+            kernel_contracts(run)
         else:
             poles_facets(run, [item[1]])
     except E.UNSUPPORTED_EXC as e:
@@ -237,6 +241,175 @@ def lambert_facets(run, n=2):
     E.Ctx.cur = None
 
 
+def density_glue(run, gridsteps=3, nd=2):
+    """The real point_density over an abstract counting kernel (count_i = K(c_i) element-wise with K >= 0 uninterpreted, one
+    positive scale), nd symbolic unit data, a symbolic scalar weight, a small concrete counting grid: the estimate at every grid
+    point is max(T_i / mean(T), 0) with T_i = (w sum_d K(|d . c_i|) - 1/2) / scale (grid mean 1 before clipping, never
+    negative), and it is unchanged when the data are reordered and any datum changes sign (axial data).  Precondition: the grid
+    mean of the raw estimates is not zero.  Bounded in the grid size and in nd; the kernels themselves are decided below."""
+    ST = real_module("pydrex.stats")
+    fn = "pydrex.stats.point_density"
+    K = z3.Function("K", z3.RealSort(), z3.RealSort())
+    scale, w = sym("kscale"), sym("w")
+    D = [symarr(f"d{k}", (3,)) for k in range(nd)]
+    hy = [scale.z > 0, w.z > 0] + [S.zz(d[0]) * S.zz(d[0]) + S.zz(d[1]) * S.zz(d[1]) + S.zz(d[2]) * S.zz(d[2]) == 1 for d in D]
+    calls = []
+
+    def kstub(cos_dist, axial=True, **kw):
+        arr = np.asarray(cos_dist, dtype=object)
+        calls.append((arr.copy(), axial, kw))
+        out = np.empty(arr.shape, dtype=object)
+        for ix in np.ndindex(*arr.shape):
+            out[ix] = Sym(K(S.zz(arr[ix])))
+        return out.view(S.SymArray), scale
+
+    g = E.rebind_module(ST)
+    g["SPHERICAL_COUNTING_KERNELS"] = {"stub": kstub}
+    f = g["point_density"]
+
+    def cols(order, signs):
+        return [np.array([signs[q] * D[k][i] for q, k in enumerate(order)], dtype=object).view(S.SymArray) for i in range(3)]
+
+    def once(order, signs):
+        c = E.Ctx(list(hy))
+        E.Ctx.cur = c
+        c.reset_path([])
+        calls.clear()
+        X, Y, Z = f(*cols(order, signs), gridsteps=gridsteps, weights=w, kernel="stub")
+        return c, np.asarray(X, dtype=float), np.asarray(Y, dtype=float), np.asarray(Z, dtype=object), list(calls)
+
+    c, X, Y, Z, cl = once(list(range(nd)), [1] * nd)
+    ng = gridsteps * gridsteps
+    ok_grid = X.shape == (gridsteps, gridsteps) == Y.shape and Z.shape == X.shape and bool(np.all(X ** 2 + Y ** 2 <= 1 + 1e-12)) and len(cl) == ng
+    run.exact(f"point_density/grid: {ng} estimates reported on the projected counting grid, every grid point inside the closed unit disk, one kernel evaluation per grid point", fn, ok_grid, f"{X.shape}, max r^2 {float((X ** 2 + Y ** 2).max()):.3f}, {len(cl)} kernel calls")
+    if not ok_grid:
+        return
+    # the kernel sees |d . c_i| for every datum (axial): expected raw estimates from the recorded arguments
+    T = []
+    for arr, axial, kw in cl:
+        ok_ax = axial is True and not kw and arr.shape == (nd,)
+        if not ok_ax:
+            run.undecided("point_density/kernel arguments", fn, f"kernel called with axial={axial}, extra {kw}, shape {arr.shape}")
+            return
+        T.append((w.z * sum((K(S.zz(v)) for v in arr.flat), z3.RealVal(0)) - z3.RealVal("1/2")) / scale.z)
+    mean = sum(T, z3.RealVal(0)) / ng
+    H = list(c.hyps) + list(c.pc) + [mean != 0] + [K(S.zz(v)) >= 0 for arr, _, _ in cl for v in arr.flat]
+    Zf = [S.zz(v) for v in Z.flat]
+    for k_, o in enumerate(c.oblig):
+        if o.name == "div_nonzero":
+            run.prove(f"point_density/safety.{o.name}#{k_} (given a non-zero grid mean)", fn, H + list(o.pc), o.goal, structural=True, kind="safety")
+    goals = []
+    for i in range(ng):
+        ti = T[i] / mean
+        goals.append(Zf[i] == z3.If(ti < 0, 0, ti))
+    run.prove("point_density/value: estimate_i == max(T_i / mean(T), 0), T_i = (w sum_d K(|d.c_i|) - 1/2) / scale  [grid mean 1 before clipping; never negative]", fn, H, E.clear_formula(z3.And(*goals)), structural=True)
+    run.prove("point_density/normalised: the raw estimates divided by their grid mean have grid mean 1", fn, H, E.clear_formula(sum((t / mean for t in T), z3.RealVal(0)) == ng), structural=True)
+    run.prove("point_density/non-negative everywhere", fn, H + [Zf[i] == z3.If(T[i] / mean < 0, 0, T[i] / mean) for i in range(ng)], z3.And(*[z >= 0 for z in Zf]), structural=True)
+    # axial data: a reordered, sign-flipped run hands the kernel the same arguments (as a multiset) at every grid point
+    order = list(range(nd))[::-1]
+    c2, X2, Y2, Z2, cl2 = once(order, [-1] + [1] * (nd - 1))
+    Z2f = [S.zz(v) for v in Z2.flat]
+    if len(cl2) != ng or any(a2.shape != (nd,) or ax2 is not True or kw2 for a2, ax2, kw2 in cl2):
+        run.undecided("point_density/axial data", fn, "kernel called differently in the second run")
+        return
+    arg_eq = [S.zz(cl2[i][0][q]) == S.zz(cl[i][0][order[q]]) for i in range(ng) for q in range(nd)]
+    run.prove("point_density/axial data: after reordering the data and flipping the sign of a datum the kernel receives the same arguments |d . c_i| at every grid point", fn, list(c.hyps), z3.And(*arg_eq), structural=True)
+    T2 = [(w.z * sum((K(S.zz(v)) for v in arr.flat), z3.RealVal(0)) - z3.RealVal("1/2")) / scale.z for arr, _, _ in cl2]
+    run.prove("point_density/axial data: hence the same raw estimates T_i", fn, list(c.hyps) + arg_eq, z3.And(*[a == b for a, b in zip(T, T2)]), structural=True)
+    mean2 = sum(T2, z3.RealVal(0)) / ng
+    run.prove("point_density/axial data: the second run's estimates are the same function of its raw estimates", fn, list(c2.hyps) + list(c2.pc) + [mean2 != 0], E.clear_formula(z3.And(*[Z2f[i] == z3.If(T2[i] / mean2 < 0, 0, T2[i] / mean2) for i in range(ng)])), structural=True)
+    run.exact("point_density/grid coordinates do not depend on the data", fn, bool(np.array_equal(X, X2) and np.array_equal(Y, Y2)), "")
+    run.canary("point_density/canary", fn, H, Zf[0] == Zf[1] + 1)
+    E.Ctx.cur = None
+
+
+def kernel_contracts(run):
+    """What density_glue assumes of a counting kernel, decided on each of the five real kernels for n = 2, 3 symbolic cosine
+    distances in [0, 1] (both `axial` settings): the summed count is an element-wise sum (unchanged under a permutation of the
+    data, every element's contribution non-negative and finite), the scale is a positive constant that depends on the number
+    of data only."""
+    ST = real_module("pydrex.stats")
+    g = E.rebind_module(ST)
+    kernels = g.get("SPHERICAL_COUNTING_KERNELS")
+    if not isinstance(kernels, dict) or not kernels:
+        run.undecided("kernels", "pydrex.stats", "SPHERICAL_COUNTING_KERNELS not found")
+        return
+    for name in kernels:
+        kf = g.get(name, kernels[name])
+        fn = f"pydrex.stats.{name}"
+        for n in (2, 3):
+            for axial in (True, False):
+                cs = symarr("c", (n,))
+                hy = [z3.And(S.zz(v) >= (0 if axial else -1), S.zz(v) <= 1) for v in cs]
+                # the Kamb radius of the non-axial variants is positive only for n > sigma^2 (see the known finding): sigma = 1 there
+                kw = {} if (axial or name == "schmidt_count") else {"σ": 1}
+                tag = f"{name}[n={n}, axial={axial}{', sigma=1' if kw else ''}]"
+
+                def total(order):
+                    c = E.Ctx(list(hy))
+                    E.Ctx.cur = c
+                    c.reset_path([])
+                    arr = np.array([cs[k] for k in order], dtype=object).view(S.SymArray)
+                    count, scale = kf(arr, axial=axial, **kw)
+                    return c, count.sum(), scale
+
+                try:
+                    c1, t1, sc1 = total(list(range(n)))
+                    c2, t2, sc2 = total(list(range(n))[::-1] if n == 2 else [1, 2, 0])
+                except S.NonFinite as e:
+                    run.exact(f"{tag}: count and scale are finite", fn, False, str(e))
+                    continue
+                terms = [S.zz(t1), S.zz(t2), S.zz(sc1), S.zz(sc2)]
+                H = list(c1.hyps) + list(c1.pc) + list(c2.pc) + E.atoms_axioms(terms)
+                run.prove(f"{tag}: the summed count does not depend on the order of the data", fn, H, E.clear_formula(S.zz(t1) == S.zz(t2)), structural=True)
+                run.prove(f"{tag}: the summed count is non-negative", fn, H, S.zz(t1) >= 0, structural=True)
+                from contracts.updfacets import consts_of
+
+                dep = {nm for nm in consts_of(S.zz(sc1)) if nm.startswith("c_")}
+                run.prove(f"{tag}: the scale is positive and the same for every ordering", fn, H, z3.And(S.zz(sc1) > 0, S.zz(sc1) == S.zz(sc2)), structural=True)
+                run.exact(f"{tag}: the scale depends on the number of data only", fn, not dep, f"data symbols in the scale: {sorted(dep)}")
+                for k_, o in enumerate(list(c1.oblig) + list(c2.oblig)):
+                    run.prove(f"{tag}/safety.{o.name}#{k_}", fn, list(c1.hyps) + list(o.pc), o.goal, structural=True, kind="safety")
+    # the scale over the whole range of data counts, on the real helpers (concrete arithmetic): positive and finite
+    bad = {}
+    for name in kernels:
+        for axial in (True, False):
+            for n in list(range(1, 301)) + [1000, 10 ** 5]:
+                try:
+                    with np.errstate(all="ignore"):
+                        _, sc = ST.SPHERICAL_COUNTING_KERNELS[name](np.full(n, 0.5), axial=axial)
+                    ok = bool(np.isfinite(sc) and sc > 0)
+                except Exception:
+                    ok = False
+                if not ok:
+                    bad.setdefault((name, axial), []).append(n)
+    for name in kernels:
+        for axial in (True, False):
+            b = bad.get((name, axial), [])
+            # non-axial Kamb kernels need n > sigma^2 = 100 (recorded finding): that range is its own obligation, so that a
+            # failure anywhere else is still reported
+            parts = [("1..300, 1000, 100000", lambda n_: True)] if axial else [("1..100 (n <= sigma^2)", lambda n_: n_ <= 100), ("101..300, 1000, 100000 (n > sigma^2)", lambda n_: n_ > 100)]
+            for lab, sel in parts:
+                bb = [n_ for n_ in b if sel(n_)]
+                run.exact(f"{name}[axial={axial}]: the scale is a positive finite number for every number of data {lab} (default smoothing)", f"pydrex.stats.{name}", not bb,
+                          f"not positive/finite for n in {bb[0]}..{bb[-1]} ({len(bb)} values)" if bb else "",
+                          info=None if not bb else dict(checker="contracts.C20:nat_density_nonaxial", inputs=dict(kernel=name, n=int(bb[len(bb) // 2]), axial=axial)))
+    E.Ctx.cur = None
+
+
+def nat_density_nonaxial(kernel, n, axial):
+    import warnings
+
+    warnings.simplefilter("ignore")
+    from pydrex import stats as st
+    from scipy.spatial.transform import Rotation as R
+
+    data = R.random(n, random_state=1).apply([0, 0, 1.0])
+    X, Y, Z = st.point_density(data[:, 0], data[:, 1], data[:, 2], gridsteps=11, kernel=kernel, axial=axial)
+    ok = bool(np.all(np.isfinite(Z)) and Z.min() >= 0)
+    return dict(ok=ok, what="" if ok else f"point_density(kernel={kernel!r}, axial={axial}) of {n} data is not finite: the Kamb radius 1 - 2 sigma^2/(n + sigma^2) is <= 0 for n <= sigma^2")
+
+
 def _rp_lambert(P):
     def replay(model):
         pts = [[E.model_value(model, S.zz(v)) for v in p] for p in P]
@@ -366,6 +539,11 @@ def bounded(run):
     run.worker_errors(errs, len(jobs))
     ev = sum(r["evaluations"] for r in res if r and "_error" not in r)
     fails = [f for r in res if r and "_error" not in r for f in r["failures"]]
+    for f in [f for f in fails if f.get("known")]:
+        kf = [k for k in run.known if k.get("bounded") == f["known"]]
+        if kf:
+            run.known_hits.append((kf[0], f["what"][:160]))
+            fails.remove(f)
     run.bounded_result("real geometry/stats functions: spherical round trip (axes and poles of the sphere included), poles for the six reference-axes strings, Lambert projection (radius, azimuth, inverse lifting, sphere poles), point density (5 kernels: finite, >= 0, grid mean 1 before clipping, in the unit disk, order and sign independence)",
                        MOD, f"{ev} generated cases", ev, fails, ev)
 
@@ -381,6 +559,7 @@ def nat_sweep(seed, count):
     for it in range(count):
         ev += 1
         msgs = []
+        known = None
         try:
             p = special[it % len(special)] if it < 2 * len(special) else rng.normal(size=3) * 10 ** rng.uniform(-3, 3)
             r, ph, th = g.to_spherical(*p)
@@ -434,12 +613,7 @@ def nat_sweep(seed, count):
                 data = (R.from_rotvec(rng.choice([0.1, 0.5, 3.0]) * rng.normal(size=(nd, 3))) * base).apply([0, 0, 1.0])
                 gs = int(rng.choice([11, 21]))
                 w = float(rng.choice([1.0, 2.5]))
-                Xg, Yg, Zg = st.point_density(data[:, 0], data[:, 1], data[:, 2], gridsteps=gs, weights=w, kernel=kern)
-                if not (np.all(np.isfinite(Zg)) and Zg.min() >= 0):
-                    msgs.append(f"point_density[{kern}]: not finite / negative")
-                if (Xg ** 2 + Yg ** 2).max() > 1 + 1e-12:
-                    msgs.append(f"point_density[{kern}]: grid point outside the unit disk")
-                # grid mean 1 before clipping: recompute the raw estimates through the public kernels
+                # raw estimates recomputed through the public kernels (for the "grid mean 1 before clipping" clause)
                 lam_, h_ = np.mgrid[-np.pi:np.pi:gs * 1j, -1:1:gs * 1j]
                 xc, yc, zc = g.to_cartesian(np.pi / 2 - lam_.ravel(), np.pi / 2 - np.arcsin(h_).ravel())
                 raw = np.empty(xc.size)
@@ -447,6 +621,16 @@ def nat_sweep(seed, count):
                     pr = np.abs(data @ cn)
                     dens, scale = st.SPHERICAL_COUNTING_KERNELS[kern](pr, axial=True)
                     raw[i_] = ((dens * w).sum() - 0.5) / scale
+                Xg, Yg, Zg = st.point_density(data[:, 0], data[:, 1], data[:, 2], gridsteps=gs, weights=w, kernel=kern)
+                if kern == "schmidt_count" and not np.any(raw) and np.all(np.isnan(Zg)):
+                    # recorded finding (input class): no datum inside the 1% cap of any grid point -> all raw estimates 0 -> 0/0
+                    fails.append(dict(case=f"{seed}.{it}", checker="contracts.C20:nat_case", inputs=dict(seed=int(seed), it=it, count=count), known="density-zero-grid-mean",
+                                      what=f"point_density[schmidt_count]: {nd} data on a {gs}x{gs} grid: every raw estimate is 0, the grid mean is 0 and all estimates are NaN"))
+                    continue
+                if not (np.all(np.isfinite(Zg)) and Zg.min() >= 0):
+                    msgs.append(f"point_density[{kern}]: not finite / negative")
+                if (Xg ** 2 + Yg ** 2).max() > 1 + 1e-12:
+                    msgs.append(f"point_density[{kern}]: grid point outside the unit disk")
                 want = raw / raw.mean()
                 want[want < 0] = 0
                 if not np.allclose(Zg.ravel(), want, rtol=1e-9, atol=1e-12):
@@ -456,6 +640,17 @@ def nat_sweep(seed, count):
                 _, _, Z2 = st.point_density(data[perm, 0] * sg, data[perm, 1] * sg, data[perm, 2] * sg, gridsteps=gs, weights=w, kernel=kern)
                 if not np.allclose(Z2, Zg, rtol=1e-9, atol=1e-10):
                     msgs.append(f"point_density[{kern}]: depends on data order or on the sign of axial data")
+                # polar (non-axial) data: finite, non-negative, order-independent; the Kamb kernels need n > sigma^2 = 100 there
+                # (recorded finding for n <= sigma^2, decided exactly in kernel_contracts), so they get 150-400 data
+                nd_p = nd if kern in ("schmidt_count", "exponential_kamb") else int(rng.choice([150, 400]))
+                dp = (R.from_rotvec(0.5 * rng.normal(size=(nd_p, 3))) * base).apply([0, 0, 1.0])
+                _, _, Zp = st.point_density(dp[:, 0], dp[:, 1], dp[:, 2], gridsteps=gs, weights=w, kernel=kern, axial=False)
+                pp = rng.permutation(nd_p)
+                _, _, Zp2 = st.point_density(dp[pp, 0], dp[pp, 1], dp[pp, 2], gridsteps=gs, weights=w, kernel=kern, axial=False)
+                if not (np.all(np.isfinite(Zp)) and Zp.min() >= 0):
+                    msgs.append(f"point_density[{kern}, axial=False, {nd_p} data]: not finite / negative")
+                elif not np.allclose(Zp, Zp2, rtol=1e-9, atol=1e-10):
+                    msgs.append(f"point_density[{kern}, axial=False]: depends on data order")
         except Exception as e:
             import traceback
 
